@@ -238,7 +238,18 @@ def r5(ctx):
                   got=[render(x[2]) for x in cs], key="marks-link")
 
 
+def r6(ctx):
+    """account items address a link by ExchangeIndex (position), market items and notices by ExchangeId (key): both must name
+    the same entry, i.e. the table must be aligned with the exchange index space (shared with C11 IDX.R2)"""
+    from rules import common_idx
+    common_idx.idx_r2(ctx, only={(CS, "exchanges")}, floor=1)
+    uses = [u for u in common_idx.positional_uses(ctx) if u["field"] == (CS, "exchanges")]
+    ctx.check("ConnectivityStates.exchanges", len(uses) >= 2 and all(u["kind"] == "Exchange" for u in uses),
+              "positional lookups of the connectivity table use exchange indices", got=[(u["kind"], u["sp"]) for u in uses], key="positional")
+
+
 RULES = [
+    ("R6", "the connectivity table is aligned with the exchange index space (position == ExchangeIndex)", r6),
     ("R1", "disconnect writes: global and the named link := Reconnecting, unconditionally, nothing else", r1),
     ("R2", "recovery writes: exact guards of the link store and the global store; conjunction recomputed after the link store", r2),
     ("R3", "all_healthy truth table", r3),
